@@ -527,60 +527,12 @@ func genC09(g *Rng, tier string, emit func(Op)) {
 		emit(declSk(kp))
 	}
 	emit(chosenEventValuesOp(g, keys[1]))
-	// history fetched in chunks: an update for from..n gets the events lo..hi put in front
-	// (adjacent or overlapping, in memory or from the wire with its product) and is then applied to a
-	// witness that stands right before lo, and to one further back (which must get an error)
 	for _, kp := range keys {
 		n := 4
 		if tier == "thorough" {
 			n = 6
 		}
-		for _, wire := range []string{"", "json-product", "flatten", "flatten-reused"} {
-			b := newHistBuilder()
-			nu0 := randomQR(g, kp.pk.N)
-			for i := 0; i <= n; i++ {
-				b.witness(fmt.Sprintf("w%d", i), revPrime(g))
-				if i < n {
-					b.revoke(revPrime(g))
-				}
-			}
-			k := 0
-			for from := 2; from <= n; from++ {
-				for lo := 1; lo < from; lo++ {
-					for hi := from - 1; hi <= n && hi <= from+1; hi++ {
-						id := fmt.Sprintf("p%d", k)
-						k++
-						b.mkupdate(id, from, n)
-						if from >= 3 {
-							// first a chunk that does not connect (a gap before the update's first event): it
-							// is refused and leaves the update as it was
-							b.badprepend(id, 1, from-2, wire)
-						}
-						if hi == from-1 {
-							// the update is used once (its product gets cached), then a chunk with an altered
-							// value is offered and refused, then the genuine chunk
-							tmp := fmt.Sprintf("t%d_pre", k)
-							b.clone(fmt.Sprintf("w%d", from-1), tmp)
-							b.apply(tmp, id)
-							b.tamperedprepend(id, lo, hi, k, wire)
-						}
-						b.prepend(id, lo, hi, wire)
-						for _, wi := range []int{lo - 1, lo, n} {
-							tmp := fmt.Sprintf("t%d_%d", k, wi)
-							b.clone(fmt.Sprintf("w%d", wi), tmp)
-							b.apply(tmp, id)
-							b.verifyw(tmp)
-						}
-						if lo >= 2 {
-							tmp := fmt.Sprintf("t%d_far", k)
-							b.clone("w0", tmp)
-							b.apply(tmp, id)
-						}
-					}
-				}
-			}
-			emit(b.op(kp, nu0, "prepended-chunks-"+wire))
-		}
+		prependedChunkOps(g, kp, n, emit)
 	}
 	for _, kp := range append(append([]*KeyPair{}, keys...), shortKey) {
 		revPrime := revPrime
@@ -743,6 +695,61 @@ func genC09(g *Rng, tier string, emit func(Op)) {
 				b.verifyw(w)
 			}
 			emit(b.op(kp, nu0, "random-history"))
+		}
+	}
+}
+
+// prependedChunkOps: history fetched in chunks (see the comment in genC09)
+func prependedChunkOps(g *Rng, kp *KeyPair, n int, emit func(Op)) {
+	// history fetched in chunks: an update for from..n gets the events lo..hi put in front
+	// (adjacent or overlapping, in memory or from the wire with its product) and is then applied to a
+	// witness that stands right before lo, and to one further back (which must get an error)
+	{
+		for _, wire := range []string{"", "json-product", "flatten", "flatten-reused"} {
+			b := newHistBuilder()
+			nu0 := randomQR(g, kp.pk.N)
+			for i := 0; i <= n; i++ {
+				b.witness(fmt.Sprintf("w%d", i), revPrime(g))
+				if i < n {
+					b.revoke(revPrime(g))
+				}
+			}
+			k := 0
+			for from := 2; from <= n; from++ {
+				for lo := 1; lo < from; lo++ {
+					for hi := from - 1; hi <= n && hi <= from+1; hi++ {
+						id := fmt.Sprintf("p%d", k)
+						k++
+						b.mkupdate(id, from, n)
+						if from >= 3 {
+							// first a chunk that does not connect (a gap before the update's first event): it
+							// is refused and leaves the update as it was
+							b.badprepend(id, 1, from-2, wire)
+						}
+						if hi == from-1 {
+							// the update is used once (its product gets cached), then a chunk with an altered
+							// value is offered and refused, then the genuine chunk
+							tmp := fmt.Sprintf("t%d_pre", k)
+							b.clone(fmt.Sprintf("w%d", from-1), tmp)
+							b.apply(tmp, id)
+							b.tamperedprepend(id, lo, hi, k, wire)
+						}
+						b.prepend(id, lo, hi, wire)
+						for _, wi := range []int{lo - 1, lo, n} {
+							tmp := fmt.Sprintf("t%d_%d", k, wi)
+							b.clone(fmt.Sprintf("w%d", wi), tmp)
+							b.apply(tmp, id)
+							b.verifyw(tmp)
+						}
+						if lo >= 2 {
+							tmp := fmt.Sprintf("t%d_far", k)
+							b.clone("w0", tmp)
+							b.apply(tmp, id)
+						}
+					}
+				}
+			}
+			emit(b.op(kp, nu0, "prepended-chunks-"+wire))
 		}
 	}
 }
